@@ -4,6 +4,7 @@ import Bpp.RecoveryThm
 import Bpp.PromiseThm
 import Bpp.BatchFlow
 import Bpp.CodecThm
+import Bpp.CtorsThm
 /-! # Property theorems
 
 Only the property statements live here, one block per C-id, each about the **executable** model functions of
@@ -199,5 +200,56 @@ theorem C15_length {bs : Bytes} {p : Proof} (h : decode bs = some p) :
 open Model.Codec in
 /-- **C15 (zero rounds: the known finding as the exact boundary).** -/
 theorem C15_zero_rounds (p : Proof) (h : p.li = []) : decode (encode p) ≠ some p := zero_rounds_refused p h
+
+/-! ## C06 The prover emits a proof exactly when the witness is valid -/
+
+open Model.Ctors in
+/-- **C06 (guards ⇔ documented validity).** For bit length ≤ 64 and 64-bit values the prover's guards
+    (`Model.Ctors.proverGuards`: counts, degree, the `n < 64 ∧ v >> n > 0` test, commitment re-computation with
+    1 ≤ |r| ≤ t, `checked_sub` of the promise) pass exactly when: as many openings as commitments, equal degrees,
+    every value below 2^bits, every opening reproducing its commitment, every promise ≤ its value. -/
+theorem C06_guard_iff (bits tS tW nC : ℕ) (ops : List Opening) (ps : List (Option ℕ))
+    (hb : bits ≤ 64) (hv : ∀ o ∈ ops, o.v < 2 ^ 64) :
+    proverGuards bits tS tW nC ops ps = true ↔ CtorsThm.WitnessValid bits tS tW nC ops ps :=
+  CtorsThm.proverGuards_iff bits tS tW nC ops ps hb hv
+
+open Model.Ctors in
+/-- **C06 (the 64-bit special case).** -/
+theorem C06_range_guard (bits v : ℕ) (hb : bits ≤ 64) (hv : v < 2 ^ 64) : valueFits bits v = true ↔ v < 2 ^ bits :=
+  CtorsThm.valueFits_iff bits v hb hv
+
+/-- **C06 (Ok ⇒ verifies).** Whenever the guards pass — i.e. `Opens` holds — the proof the model prover builds has
+    zero coded contribution (it is `C01_code_accepts`; restated here because C06 asks for it). -/
+theorem C06_ok_verifies (I : RangeInst F M) (hn : 0 < I.n) (v p : ℕ → ℕ) (r : ℕ → ℕ → F)
+    (α : ℕ → F) (dL dR : ℕ → ℕ → F) (rr ss : F) (d η : ℕ → F) (y z : F) (es : List F) (e w : F)
+    (k : ℕ) (hm : I.m = 2 ^ k) (hN : I.n * I.m = 2 ^ es.length) (hw : Opens I v p r)
+    (hy0 : y ≠ 0) (hy1 : y ≠ 1) (hes : ∀ x ∈ es, x ≠ 0) :
+    Model.codeContribution I (Model.rangeProve I v p r α dL dR rr ss d η y z es e).toProofM y z es e w = 0 :=
+  C01_code_accepts I hn v p r α dL dR rr ss d η y z es e w k hm hN hw hy0 hy1 hes
+
+/-! ## C17 Constructors accept exactly the documented parameter space -/
+
+open Model.Ctors in
+theorem C17_params (bits cap : ℕ) :
+    paramsInit bits cap = true ↔ (∃ k, cap = 2 ^ k) ∧ (bits = 1 ∨ bits = 2 ∨ bits = 4 ∨ bits = 8 ∨ bits = 16 ∨ bits = 32 ∨ bits = 64) :=
+  CtorsThm.paramsInit_iff bits cap
+
+open Model.Ctors in
+theorem C17_statement (cap nC nP : ℕ) (seed : Bool) :
+    statementInit cap nC nP seed = true ↔ (∃ k, nC = 2 ^ k) ∧ nP = nC ∧ nC ≤ cap ∧ (seed = true → nC = 1) :=
+  CtorsThm.statementInit_iff cap nC nP seed
+
+open Model.Ctors in
+theorem C17_witness (rs : List ℕ) : witnessInit rs = true ↔ ∃ t, 1 ≤ t ∧ t ≤ 6 ∧ rs ≠ [] ∧ ∀ r ∈ rs, r = t :=
+  CtorsThm.witnessInit_iff rs
+
+open Model.Ctors in
+theorem C17_degree (x : ℕ) : degreeOk x = true ↔ 1 ≤ x ∧ x ≤ 6 := CtorsThm.degreeOk_iff x
+
+open Model.Ctors in
+theorem C17_mask (deg len : ℕ) (hd : 1 ≤ deg) : maskAssign deg len = true ↔ len = deg := CtorsThm.maskAssign_iff deg len hd
+
+open Model.Ctors in
+theorem C17_commit (deg nB : ℕ) : commitOk deg nB = true ↔ 1 ≤ nB ∧ nB ≤ deg := CtorsThm.commitOk_iff deg nB
 
 end Bpp
